@@ -234,6 +234,20 @@ func main() {
 		if !bytes.Equal(m2, msg) {
 			run.Violation("Encrypt|caller-buffer-modified", id, rep)
 		}
+		// the message is a part of a larger buffer of the caller (a frame, a pooled buffer): what lies behind
+		// it belongs to the caller too
+		{
+			frame, tail := spare(msg)
+			var out2 []byte
+			if c.try("Encrypt", id+" (spare capacity)", rep, func() { out2, err = ige.Encrypt(frame[:n:len(frame)], ak) }) {
+				if err != nil || !bytes.Equal(out2, out) {
+					run.Violation("Encrypt|differs-with-spare-capacity", id+": result depends on the capacity of the argument", rep)
+				}
+				if !bytes.Equal(frame[:n], msg) || !bytes.Equal(frame[n:], tail) {
+					run.Violation("Encrypt|caller-buffer-modified|behind-the-message", id+": bytes of the caller's buffer behind the message were overwritten", rep)
+				}
+			}
+		}
 		// receive direction: x = 8
 		k8, iv8 := mtp1.KDF(ak, h[4:20], 8)
 		ct := mtp1.IGEEncrypt(k8, iv8, padded)
@@ -294,6 +308,16 @@ func main() {
 						if !bytes.Equal(p2, payload) {
 							run.Violation("temp|encrypt|caller-buffer-modified", id, rep)
 						}
+						frame, tail := spare(payload)
+						var ct2 []byte
+						if c.try("temp|encrypt|"+cls, id+" (spare capacity)", rep, func() { ct2 = ige.EncryptMessageWithTempKeys(frame[:n:len(frame)], nn, sn) }) {
+							if got, found := mtp1.TempOpenAny(ct2, newNonce, srvNonce); !found || !bytes.Equal(got, payload) {
+								run.Violation("temp|encrypt|peer-cannot-open|spare-capacity|"+cls, id+": payload given as a part of a larger buffer is not recovered by a conformant peer", rep)
+							}
+							if !bytes.Equal(frame[:n], payload) || !bytes.Equal(frame[n:], tail) {
+								run.Violation("temp|encrypt|caller-buffer-modified|behind-the-payload", id+": bytes of the caller's buffer behind the payload were overwritten", rep)
+							}
+						}
 						// and the client opens what it produced itself
 						var back []byte
 						if c.try("temp|decrypt-own|"+cls, id, rep, func() { back = ige.DecryptMessageWithTempKeys(ct, nn, sn) }) {
@@ -333,8 +357,27 @@ func main() {
 				pairs = append(pairs, np{a, b})
 			}
 		}
+		// pairs that differ as pairs of fixed-width values but agree once leading zero bytes are dropped and the
+		// two values are put next to each other (anything that remembers a pair under such a name confuses them):
+		// 47 bytes X cut as 00|X[:31] + X[31:] and as X[:32] + 00|X[32:]; and the small numbers (0,1) (1,0)
+		// (1,256) (256,1) (0,0) (1,1)
+		x47 := pat(47, func(i int) byte { return byte(0x31 + 3*i) })
+		special := [][2][]byte{
+			{append([]byte{0}, x47[:31]...), x47[31:]},
+			{x47[:32], append([]byte{0}, x47[32:]...)},
+			{num(32, 0), num(16, 1)}, {num(32, 1), num(16, 0)}, {num(32, 1), num(16, 256)}, {num(32, 256), num(16, 1)},
+			{num(32, 0), num(16, 0)}, {num(32, 1), num(16, 1)},
+		}
+		for i := range special {
+			pairs = append(pairs, np{100 + i, 100 + i})
+		}
 		step := func(p np, seal bool, id string, rep map[string]any, cls string) {
-			newNonce, srvNonce := mkNew(p.a), mkSrv(p.b)
+			var newNonce, srvNonce []byte
+			if p.a >= 100 {
+				newNonce, srvNonce = special[p.a-100][0], special[p.a-100][1]
+			} else {
+				newNonce, srvNonce = mkNew(p.a), mkSrv(p.b)
+			}
 			nn, sn := new(big.Int).SetBytes(newNonce), new(big.Int).SetBytes(srvNonce)
 			if seal {
 				var ct []byte
@@ -368,6 +411,20 @@ func main() {
 	run.Set("bounds", map[string]any{"blocks_max": N, "encrypt_len_max": M, "temp_payload_max": W})
 	freepass.Run(run, run.ID, freepass.Rounds(run))
 	run.Finish()
+}
+
+// spare returns a buffer that holds msg followed by 48 marked bytes, and a copy of those.
+func spare(msg []byte) (frame, tail []byte) {
+	tail = pat(48, func(i int) byte { return byte(0xa5 ^ i) })
+	frame = append(append(make([]byte, 0, len(msg)+48), msg...), tail...)
+	return frame, append([]byte{}, tail...)
+}
+
+// num is v as a big-endian number of n bytes.
+func num(n int, v int) []byte {
+	b := make([]byte, n)
+	b[n-1], b[n-2] = byte(v), byte(v>>8)
+	return b
 }
 
 func blk(i int) string {
